@@ -89,6 +89,15 @@ CLAIMED['C12'] = dict(
     note='Coq kernel; no axioms; list.sort is assumed stable (its result is then unique and equal to the model\'s insertion sort); immutability of the inputs '
          'and skip_checks are compared on the implementation (the model is functional).',
     technique='Coq proof (stable-sort characterisation, telescoping sums, induction) + model/implementation correspondence', design='5/C12')
+CLAIMED['C13'] = dict(
+    text='Exact-arithmetic theorems over the model of MidiFile.__iter__/length/play and units: the cumulative time of every message is the tempo-map integral '
+         'of its absolute tick (a set_tempo applies only to later deltas), length is the time of the last message, play never yields before the scheduled time for '
+         'ANY pattern of oversleeps and consumer holds, yields with exact sleeps at max(scheduled, consumer back) - no drift - and yields exactly the iteration messages '
+         '(meta only on request); tick2second/second2tick are exact inverses for any positive tempo. The binary64 behaviour is tied by a PrimFloat model compared BIT FOR BIT '
+         'with CPython (kernel vm_compute) and the exact model within n*2^-50.',
+    note='Coq kernel; no axioms (PrimFloat primitives are kernel primitives, used only in the tested float model, not in the theorems); real clock and sleep are replaced by a '
+         'scripted clock; float rounding is outside the theorems (known finding for ticks >= 2**53).',
+    technique='Coq proof over rationals (induction, lra/field) + bit-exact PrimFloat model evaluated by the kernel + correspondence with a scripted clock', design='5/C13')
 NOT_YET = {}
 ALL = ['C%02d' % i for i in range(1, 21)]
 
